@@ -298,6 +298,12 @@ async fn network_connect(options: &MqttOptions) -> Result<Network, ConnectionErr
         }
     }
 
+    #[cfg(feature = "verif-hooks")]
+    if let Some(connector) = crate::verif::connector(&options.broker_addr) {
+        let socket = connector().await?;
+        return Ok(Network::new(socket, max_incoming_pkt_size));
+    }
+
     // Process Unix files early, as proxy is not supported for them.
     #[cfg(unix)]
     if matches!(options.transport(), Transport::Unix) {
